@@ -147,7 +147,21 @@ class Checker:
         if mode is None and '|mode=' in origin:
             origin, mode = origin.split('|mode=')
         if mode is None:
-            mode = ('plain', 'verified-first', 'plain', 'verified-first', 'second-section')[Checker.made % 5]
+            mode = ('plain', 'verified-first', 'plain', 'verified-first', 'second-section', 'plain', 'after-verifying-other-code', 'verified-first',
+                    'after-sections-were-stopped', 'attached-without-clearing')[Checker.made % 10]
+            fresh = True
+        else:
+            fresh = False
+        if mode in ('after-verifying-other-code', 'after-sections-were-stopped', 'attached-without-clearing'):
+            # histories after which the Source tool holds the tree of some OTHER text (see props/cait_common.present)
+            from props import cait_common as cc
+            self.src = cc.present(ctx, src, mode, fresh=fresh)
+            mode = cc.PRESENTED['how']
+            self.tree = ast.parse(self.src)
+            self.origin = origin + '|mode=' + mode
+            self.n = 0
+            ctx.seen('how_the_program_is_presented', mode)
+            return
         if mode == 'second-section' and ('##### Part' in src or '\r' in src or '\x0c' in src):
             mode = 'verified-first'
         self.origin = origin + '|mode=' + mode
